@@ -17,7 +17,7 @@ fn ints(b: &[u8]) -> Vec<i128> {
 fn e<T>(r: pdf::error::Result<T>) -> Result<T, String> { r.map_err(|x| ekind(&x)) }
 fn num(n: i128) -> Vec<u8> { n.to_string().into_bytes() }
 /// integral f32 -> decimal, anything else -> "x"
-fn fint(x: f32) -> String { if x.is_finite() && x.fract() == 0.0 && x.abs() < 1e18 { format!("{}", x as i64) } else { "x".into() } }
+fn fint(x: f32) -> String { if x.is_finite() && x.fract() == 0.0 { format!("{}", x as i128) } else { "x".into() } }
 
 pub fn dispatch(mode: &str, f: &[Vec<u8>]) -> Option<R> {
     Some(match mode {
@@ -148,7 +148,8 @@ pub fn dispatch(mode: &str, f: &[Vec<u8>]) -> Option<R> {
                 if let Some(ref t) = names.javascript { if let Err(x) = t.walk(&r, &mut |_, _| n += 1) { return Some(Err(ekind(&x))); } }
             }
             if let Some(ref t) = root.page_labels { if let Err(x) = t.walk(&r, &mut |_, _| n += 1) { return Some(Err(ekind(&x))); } }
-            Ok(vec![num(n)])
+            let _ = n;
+            Ok(vec![])
         }
         _ => return None,
     })
